@@ -13,7 +13,7 @@ use crate::tree::TreeIndex;
 use serde_json::json;
 
 /// Sources with deep nesting, same-range parent/child chains and many nodes of one kind.
-const SHAPES: &[&str] = &[
+pub const SHAPES: &[&str] = &[
     "x",
     "pass",
     "f(x)",
@@ -60,7 +60,8 @@ const READERS: &[(&str, &str, bool)] = &[
 /// A scenario program: definitions of a few scoped names on several kinds of nodes (so that
 /// identifiers have several defining ancestors), readers that reach identifiers through many
 /// different query paths, list elements and stored links.
-pub fn scenario(t: &mut Tape, strict_only: bool) -> (GProg, std::collections::BTreeSet<&'static str>) {
+/// `dup`: one in `dup` repeated definer kinds is kept (a deliberate double definition).
+pub fn scenario(t: &mut Tape, strict_only: bool, dup: u32) -> (GProg, std::collections::BTreeSet<&'static str>) {
     use crate::dsl::*;
     let mut ids = Ids::default();
     let mut features = std::collections::BTreeSet::new();
@@ -68,6 +69,9 @@ pub fn scenario(t: &mut Tape, strict_only: bool) -> (GProg, std::collections::BT
     let nnames = 1 + t.choose(3);
     let names: Vec<String> = (0..nnames).map(|i| ["scope", "val", "something", "ref"][i].to_string() + if t.chance(1, 4) { "-x" } else { "" }).collect();
     let mut definer_stanzas: Vec<Item> = vec![];
+    // (is the module's definer, item); setters for mutable names, used by the phased order
+    let mut definer_is_outer: Vec<bool> = vec![];
+    let mut setter_stanzas: Vec<Item> = vec![];
     for name in &names {
         let inherited = t.chance(3, 5);
         if inherited {
@@ -78,7 +82,7 @@ pub fn scenario(t: &mut Tape, strict_only: bool) -> (GProg, std::collections::BT
         let mut kinds: Vec<usize> = vec![];
         for _ in 0..ndef {
             let k = t.choose(DEFINERS.len());
-            if !kinds.contains(&k) || t.chance(1, 30) {
+            if !kinds.contains(&k) || t.chance(1, dup) {
                 kinds.push(k); // a repeated kind is a deliberate double definition
             }
         }
@@ -102,14 +106,28 @@ pub fn scenario(t: &mut Tape, strict_only: bool) -> (GProg, std::collections::BT
                 },
             };
             let mutable = strict_only && t.chance(1, 5);
-            let var = VarRef::Scoped { id: ids.next(), scope: c(&mut ids), name: name.clone() };
+            // the defining node is named directly or through a local that holds it
+            let mut body = vec![];
+            let scope = if t.chance(1, 3) {
+                features.insert("definition-through-local");
+                body.push(Stmt::Let { id: ids.next(), var: VarRef::Plain { id: ids.next(), name: "holder".into() }, value: c(&mut ids) });
+                Expr::Var { id: ids.next(), name: "holder".into() }
+            } else {
+                c(&mut ids)
+            };
+            let var = VarRef::Scoped { id: ids.next(), scope, name: name.clone() };
             let stmt = if mutable { Stmt::Var { id: ids.next(), var, value } } else { Stmt::Let { id: ids.next(), var, value } };
-            let mut body = vec![stmt];
+            body.push(stmt);
             if mutable && t.chance(1, 2) {
                 body.push(Stmt::Set { id: ids.next(), var: VarRef::Scoped { id: ids.next(), scope: c(&mut ids), name: name.clone() }, value: Expr::Str("reassigned".into()) });
                 features.insert("scoped-set");
             }
             definer_stanzas.push(Item::Stanza(Stanza { id: ids.next(), query: pattern.to_string(), captures: vec![Cap { name: cap.to_string(), quant: Quant::One }], body, pool: usize::MAX }));
+            definer_is_outer.push(k == 0);
+            if mutable && t.chance(1, 2) {
+                let set = Stmt::Set { id: ids.next(), var: VarRef::Scoped { id: ids.next(), scope: c(&mut ids), name: name.clone() }, value: Expr::Str(format!("late-{}", name)) };
+                setter_stanzas.push(Item::Stanza(Stanza { id: ids.next(), query: pattern.to_string(), captures: vec![Cap { name: cap.to_string(), quant: Quant::One }], body: vec![set], pool: usize::MAX }));
+            }
         }
     }
     // every identifier gets a graph node to hang the probes on
@@ -129,8 +147,13 @@ pub fn scenario(t: &mut Tape, strict_only: bool) -> (GProg, std::collections::BT
         body: vec![Stmt::Let { id: ids.next(), var: VarRef::Scoped { id: ids.next(), scope: Expr::Capture { id: ids.next(), name: "a".into() }, name: "obj".into() }, value: Expr::Capture { id: ids.next(), name: "o".into() } }],
         pool: usize::MAX,
     });
+    // phased order (strict only): outer definitions, readers, nearer definitions and late
+    // assignments, readers again - a read may come before the definition that should win later
+    let phased = strict_only && t.chance(1, 2);
     let mut reader_stanzas: Vec<Item> = vec![];
     let nreaders = 1 + t.choose(5);
+    let first_batch = nreaders;
+    let nreaders = if phased { nreaders + 1 + t.choose(4) } else { nreaders };
     for ri in 0..nreaders {
         let (pattern, cap, is_list) = READERS[t.choose(READERS.len())];
         let name = names[t.choose(names.len())].clone();
@@ -162,6 +185,22 @@ pub fn scenario(t: &mut Tape, strict_only: bool) -> (GProg, std::collections::BT
     }
     // order: definers, base, link, readers; outside the fragment any order (strict may then fail)
     let mut stanzas: Vec<Item> = vec![];
+    if phased {
+        features.insert("phased-read-define-read");
+        let (outer, nearer): (Vec<_>, Vec<_>) = definer_stanzas.into_iter().zip(definer_is_outer.iter()).partition(|(_, o)| **o);
+        stanzas.extend(outer.into_iter().map(|(s, _)| s));
+        stanzas.push(base);
+        if with_links {
+            stanzas.push(link);
+        }
+        let second: Vec<Item> = if reader_stanzas.len() > first_batch { reader_stanzas.split_off(first_batch) } else { vec![] };
+        stanzas.extend(reader_stanzas);
+        stanzas.extend(nearer.into_iter().map(|(s, _)| s));
+        stanzas.extend(setter_stanzas);
+        stanzas.extend(second);
+        items.extend(stanzas);
+        return (GProg { items }, features);
+    }
     stanzas.extend(definer_stanzas);
     stanzas.push(base);
     if with_links {
@@ -195,7 +234,7 @@ pub fn case(tape: &[u32]) -> CaseOutcome {
     let n = 1 + a.choose(2);
     let sources: Vec<String> = (0..n).map(|_| if a.chance(1, 3) { SHAPES[a.choose(SHAPES.len())].to_string() } else { pysrc::gen_source(&mut a) }).collect();
     let mut program = if use_scenario {
-        let (prog, features) = scenario(&mut t, strict_only);
+        let (prog, features) = scenario(&mut t, strict_only, 30);
         let printed = crate::dsl::print_canonical(&prog);
         let mut gen = crate::gen::Generated { prog, globals: Default::default(), features: Default::default(), fault: None, fault_id: None, fault_pair: None };
         gen.features = features;
@@ -233,6 +272,7 @@ pub fn case(tape: &[u32]) -> CaseOutcome {
             report.evaluations += 1;
             match (&model.outcome, &actual) {
                 (_, LibRun::Panic(p)) => return CaseOutcome::Fail(Failure::new(format!("C04:{}:{}", mode, p.signature()), p.message.clone(), d(json!({})))),
+                (Outcome::Err(_), LibRun::PollBound(_)) => report.counters.push(("inconclusive:poll-bound-next-to-failing-reference-run".into(), 1)),
                 (_, LibRun::PollBound(_)) | (_, LibRun::BadGraph(_)) => return CaseOutcome::Fail(Failure::new(format!("C04:{}:bad-run", mode), "poll bound or inconsistent graph".to_string(), d(json!({})))),
                 (Outcome::Ok, LibRun::Ok(g)) => match compare_graphs(&model.graph, g, 0) {
                     Cmp::Same => labels.push(format!("{}:ok", mode)),
